@@ -63,6 +63,7 @@ var c18Templates = []string{
 type treeSpec struct {
 	files map[string]string // relative path -> content
 	old   map[string]bool   // outputs that are OLDER than their template (stale)
+	near  map[string]bool   // the output's time differs from the template's by less than a second (same wall-clock second)
 }
 
 func skippedDir(rel string, extra []string) bool {
@@ -83,7 +84,7 @@ func skippedDir(rel string, extra []string) bool {
 }
 
 func (c *Ctx) genTree() treeSpec {
-	t := treeSpec{files: map[string]string{}, old: map[string]bool{}}
+	t := treeSpec{files: map[string]string{}, old: map[string]bool{}, near: map[string]bool{}}
 	dirs := []string{"", "a", "a/b", "vendor", "vendor/x", "node_modules/m", ".hidden", "_private", "skipme", "a/skipme", "a/.git", "deep/er/est"}
 	n := 3 + c.R.Intn(8)
 	for i := 0; i < n; i++ {
@@ -95,9 +96,11 @@ func (c *Ctx) genTree() treeSpec {
 		switch c.R.Intn(5) {
 		case 0: // up-to-date output (content is whatever: must not be rewritten)
 			t.files[p+".go"] = "// up to date marker " + name + "\npackage t\n"
+			t.near[p+".go"] = c.R.Intn(2) == 0
 		case 1: // stale output
 			t.files[p+".go"] = "// stale marker " + name + "\npackage t\n"
 			t.old[p+".go"] = true
+			t.near[p+".go"] = c.R.Intn(2) == 0
 		}
 	}
 	// orphans and unrelated files
@@ -122,11 +125,17 @@ func (t treeSpec) write(root string, base time.Time) {
 		full := filepath.Join(root, p)
 		os.MkdirAll(filepath.Dir(full), 0755)
 		os.WriteFile(full, []byte(t.files[p]), 0644)
-		mt := base
+		mt := base.Add(600 * time.Millisecond) // templates: in the middle of a wall-clock second
 		if strings.HasSuffix(p, ".goht.go") {
-			mt = base.Add(10 * time.Second) // newer than its template: up to date
-			if t.old[p] {
+			switch {
+			case t.old[p] && t.near[p]:
+				mt = base.Add(100 * time.Millisecond) // older, within the same second
+			case t.old[p]:
 				mt = base.Add(-10 * time.Second)
+			case t.near[p]:
+				mt = base.Add(601 * time.Millisecond) // newer by a millisecond: up to date
+			default:
+				mt = base.Add(10 * time.Second)
 			}
 		}
 		os.Chtimes(full, mt, mt)
@@ -135,7 +144,7 @@ func (t treeSpec) write(root string, base time.Time) {
 
 func c18(c *Ctx) {
 	c.Rep.TieObs = []string{"O-gen: the directory tree after each run of the real `goht generate` binary (names, contents, modification times)"}
-	c.Rep.Rule = "random directory trees (nested dirs, vendor / node_modules / dot / underscore / --skip-dirs directories at several depths, orphaned outputs, templates that do not compile, unrelated files, up-to-date and stale outputs) x flag sets (--force, --keep, --skip-dirs, --max-workers 1 / 2 / 3 / 8, relative / absolute --path) x histories of two or three runs with edits, touches and deletions in between; plus one tree with hundreds of templates; oracle: the tree after each run against the specification computed with the real compiler + gofmt; distinct = distinct (tree, flags, history); non-trivial = the run had at least one stale template"
+	c.Rep.Rule = "random directory trees (nested dirs, vendor / node_modules / dot / underscore / --skip-dirs directories at several depths, orphaned outputs, templates that do not compile, unrelated files, up-to-date and stale outputs, also by less than a second within one wall-clock second) x flag sets (--force, --keep, --skip-dirs, --max-workers 1 / 2 / 3 / 8, relative / absolute --path) x histories of two or three runs with edits, touches and deletions in between; plus one tree with hundreds of templates; oracle: the tree after each run against the specification computed with the real compiler + gofmt; distinct = distinct (tree, flags, history); non-trivial = the run had at least one stale template"
 	goht := filepath.Join(c.Build, "goht")
 	if !fileExists(goht) {
 		c.mismatch("setup", "", "goht binary missing", "", true)
@@ -149,7 +158,7 @@ func c18(c *Ctx) {
 		tree := c.genTree()
 		if ti == 0 {
 			// the worker pool: hundreds of templates
-			tree = treeSpec{files: map[string]string{}, old: map[string]bool{}}
+			tree = treeSpec{files: map[string]string{}, old: map[string]bool{}, near: map[string]bool{}}
 			for i := 0; i < c.N(150, 400); i++ {
 				tree.files[fmt.Sprintf("d%d/t%d.goht", i%7, i)] = c18Templates[i%len(c18Templates)]
 			}
